@@ -8,7 +8,8 @@ DELIM = "(js[g_k] == '\\t' || js[g_k] == '\\r' || js[g_k] == '\\n' || js[g_k] ==
 
 def tokwf(k, b):
     t = 'tokens[%s]' % k
-    return "(%s.start >= 0 && (unsigned)%s.start <= (%s) && (%s.end == -1 || (%s.start <= %s.end && (unsigned)%s.end <= (%s))))" % (t, t, b, t, t, t, t, b)
+    return ("(%(t)s.start >= 0 && (unsigned)%(t)s.start < (%(b)s) && (%(t)s.end == -1 ? (%(t)s.type == 1 || %(t)s.type == 2) : "
+            "(%(t)s.start <= %(t)s.end && (unsigned)%(t)s.end <= (%(b)s) && (%(t)s.type == 3 ? (%(t)s.start >= 1 && (unsigned)%(t)s.end < (%(b)s)) : %(t)s.start < %(t)s.end))))") % {'t': t, 'b': b}
 
 _n = [0]
 def sizes(b):
@@ -25,7 +26,13 @@ PI = "parser->pos <= g_n && parser->toknext >= 0 && (unsigned long)parser->tokne
 
 def contracts(maxt):
     SM_P = "parser,jsmn_parse::parser;js,jsmn_parse::js;tokens,jsmn_parse::tokens;num_tokens,jsmn_parse::num_tokens;i,jsmn_parse::1::i;r,jsmn_parse::1::r;token,jsmn_parse::1::token;c,jsmn_parse::1::1::1::c;type,jsmn_parse::1::1::1::type"
-    common = lambda b: [PI, sizes(b), "(g_t < parser->toknext ==> %s)" % tokwf('g_t', b),
+    def tq(k):
+        return "(tokens[%s].type == 3 ? 1 : 0)" % k
+    laminar = ("(tokens[g_t].end == -1 ? (tokens[g_t].start < tokens[g_u].start - %(qu)s) : "
+               "((tokens[g_t].end + %(qt)s <= tokens[g_u].start - %(qu)s) || "
+               "((tokens[g_t].type == 1 || tokens[g_t].type == 2) && tokens[g_t].start < tokens[g_u].start - %(qu)s && tokens[g_u].end != -1 && tokens[g_u].end + %(qu)s < tokens[g_t].end)))") % {'qt': tq('g_t'), 'qu': tq('g_u')}
+    common = lambda b: [PI, sizes(b), "0 <= g_t && g_t < g_u && g_u < MAXT", "(g_t < parser->toknext ==> %s)" % tokwf('g_t', b),
+                        "(g_u < parser->toknext ==> (%s && %s))" % (tokwf('g_u', b), laminar),
                         "(g_t >= parser->toknext ==> %s)" % tokeq_entry('g_t')]
     d = {"functions": [
         {"jsmn_parse_string": [
@@ -51,7 +58,9 @@ def contracts(maxt):
             # find the innermost open token and close it
             {"loop_id": "0", "anchor": r"for \(i = parser->toknext - 1; i >= 0; i--\)",
              "assigns": "i, token, parser->toksuper, __CPROVER_object_whole(tokens)",
-             "invariants": " && ".join(["-1 <= i", "i < parser->toknext", "parser->pos < g_n"] + common("parser->pos")),
+             "invariants": " && ".join(["-1 <= i", "i < parser->toknext", "parser->pos < g_n",
+                                        "((i < g_t && g_t < parser->toknext) ==> tokens[g_t].end != -1)",
+                                        "((i < g_u && g_u < parser->toknext) ==> tokens[g_u].end != -1)"] + common("parser->pos")),
              "decreases": "i + 1", "symbol_map": SM_P},
             # find the next open token: new toksuper
             {"loop_id": "1", "anchor": r"for \(; i >= 0; i--\)",
